@@ -604,7 +604,10 @@ where
                 .collect::<Vec<_>>();
             for module in mods {
                 // Use cloned handles to appease the brwchk
-                if stage < module.num_sim_start_stages() {
+                // A module that was deactivated by an earlier stage (it panicked or shut
+                // itself down) must not run its remaining stages: they would poll tasks of
+                // a module that is supposed to be inert. A restart replays all stages.
+                if stage < module.num_sim_start_stages() && module.is_active() {
                     module.activate();
 
                     #[cfg(feature = "tracing")]
